@@ -51,7 +51,7 @@ CLAUSES = ["intensity-sum", "intensity-sum:no-holz", "zero-thickness", "lazy-eag
            "expm-equals-eig", "expm-equals-eig:no-holz", "structure-matrix-hermitian", "structure-matrix-model",
            "s-matrix-flux-unitary", "ensemble-member"]
 QUICK = dict(n=34, time=45)
-THOROUGH = dict(n=1600, time=420, shards=16)
+THOROUGH = dict(n=7690, time=480, shards=16)
 ASSUMPTIONS = ["beams with g_z != 0 are judged to first order in g_z/k0 (tolerance 8 W for the sum, 5 B per beam for the path comparison); cases "
                "without such beams are judged at float64 round-off",
                "CPU backend; at most ~150 beams per calculation"]
